@@ -18,8 +18,8 @@ Full statement / what is proved:
   `cache-directory`/`no-cache`): only when profile and default section use the SAME key and `no-cache` is true; the
   excluded region contains genuine failures (`profile_cache_directory_loses_to_default_no_cache`,
   `key_file_in_profile_rejected_because_of_default_key`).
-* `precedence_backend_partial` — backend-specific options: only for string values in the file (D14) on which
-  `guess_type` is idempotent (D15); witnesses `backend_typed_toml_value_crashes`, `backend_value_coerced_twice`,
+* `precedence_backend_partial` — backend-specific options: typed TOML values only if the validator keeps them (D14:
+  today it raises), and only where `guess_type` is idempotent on the effective value (D15); witnesses `backend_typed_toml_value_crashes`, `backend_value_coerced_twice`,
   `backend_string_default_coerced`.
 -/
 namespace Replicat.C19
@@ -57,12 +57,13 @@ theorem precedence_two_keys_partial (sem : Sem V) (hsem : SemOK sem) (cmd : OptC
   exact (precedence_main sem hsem cmd hc hp row (rows_wfMain row hrow hscope) s hb hv hsame htr).1
 
 /-- **Precedence, backend-specific options (partial)** — built-in backends and the custom backend `vfy`.
-Extra hypotheses: the values written in the file are strings (`fileRawsStr`; a TOML integer raises — D14), and when
-the option is not on the command line `guess_type` maps the effective value to itself if it is a string (argparse
-sends a string default through `type` a second time — D15). -/
+Extra hypotheses: a typed (non-string) TOML value written in the file is left unchanged by the validator
+(`TypedValuesKept`: false of today's `guess_type`, which raises on a non-string — D14; it holds trivially when the file
+holds strings only, `typedValuesKept_of_str`), and when the option is not on the command line `guess_type` maps the
+effective value to itself if it is a string (argparse sends a string default through `type` a second time — D15). -/
 theorem precedence_backend_partial (sem : Sem V) (cmd : OptCommand) (hcmd : cmd ∈ optCommands)
     (row : OptRow) (hrow : row ∈ optRows) (hscope : row.scope = 2)
-    (s : Simple V) (hv : valid sem row s = true) (hstr : fileRawsStr sem row s = true)
+    (s : Simple V) (hv : valid sem row s = true) (hstr : TypedValuesKept sem row s)
     (hidem : s.cli = none → ∀ c, specBelowCli sem row s = .ok c → sem.isStr c = true → sem.co .guessType c = some c) :
     pipelineFinal sem cmd row s.toInputs = spec sem row s := by
   obtain ⟨hc, hp, _⟩ := cmds_ok cmd hcmd
@@ -113,10 +114,11 @@ theorem documented_exclusive_flags_rejected : ∀ cmd ∈ optCommands, ∀ a ∈
     (a.flag, b.flag) ∈ documentedExclusive → twoFlags a b = .error .argparse := by
   decide
 
-/-- **Configuration file (partial).** For the options all of whose file keys are plain (`password`/`password-file`,
-`key`/`key-file`): two different keys of one option in the mapping `read_config` returns end the run with an error.
-Missing: `no-cache` together with `cache-directory` — accepted, `no-cache` wins (witness below). -/
-theorem mutually_exclusive_file_keys_partial (sem : Sem V) (cmd : OptCommand) (hcmd : cmd ∈ optCommands)
+/-- **Configuration file.** For the options all of whose file keys are plain — these are the pairs the README declares
+exclusive, `password`/`password-file` and `key`/`key-file` — two different keys of one option in the mapping that
+`read_config` returns end the run with an error.  (`no-cache` with `cache-directory` is not declared exclusive in the
+file and is accepted: `no_cache_with_cache_directory_not_rejected`.) -/
+theorem mutually_exclusive_file_keys_rejected (sem : Sem V) (cmd : OptCommand) (hcmd : cmd ∈ optCommands)
     (row : OptRow) (hrow : row ∈ optRows) (hs : (row.scope == 0 || row.scope == 1) = true) (hplain : allPlain row = true)
     (inp : Inputs V) (i j : Nat) (hij : i ≠ j) (hi : i < row.file.length) (hj : j < row.file.length)
     (hli : (lookup (overlay inp.dflt inp.prof) i).isSome = true) (hlj : (lookup (overlay inp.dflt inp.prof) j).isSome = true) :
@@ -204,21 +206,21 @@ theorem coercion_uniform_backend_partial (sem : Sem V) (cmd : OptCommand) (hcmd 
   refine ⟨?_, ?_, ?_, ?_⟩
   · rw [precedence_backend sem cmd hc hp row hscope hwf _
       (by simp [valid, cliOk, envOk, fileOk, hv1, cliValue, hvk, hvt, hx, orErr, hre])
-      (by simp [fileRawsStr, rawStrOk]) (by intro h; simp at h)]
+      (typedValuesKept_of_str sem row _ (by simp [fileRawsStr, rawStrOk])) (by intro h; simp at h)]
     simp [spec, hv1, cliValue, hvk, hvt, hx, orErr]
   · rw [precedence_backend sem cmd hc hp row hscope hwf _
       (by simp [valid, cliOk, envOk, fileOk, hre, hx])
-      (by simp [fileRawsStr, rawStrOk])
+      (typedValuesKept_of_str sem row _ (by simp [fileRawsStr, rawStrOk]))
       (by intro _ c hc'; simp [specBelowCli, hre, hx, orErr] at hc'; subst hc'; exact hidem)]
     simp [spec, specBelowCli, hre, hx, orErr]
   · rw [precedence_backend sem cmd hc hp row hscope hwf _
       (by simp [valid, cliOk, envOk, fileOk, hre, hf1, hfk, hft, hx])
-      (by simp [fileRawsStr, rawStrOk, hr])
+      (typedValuesKept_of_str sem row _ (by simp [fileRawsStr, rawStrOk, hr]))
       (by intro _ c hc'; simp [specBelowCli, specBelowEnv, fileValue, hre, hf1, hfk, hft, hbk, hr, hx, orErr] at hc'; subst hc'; exact hidem)]
     simp [spec, specBelowCli, specBelowEnv, fileValue, hre, hf1, hfk, hft, hbk, hr, hx, orErr]
   · rw [precedence_backend sem cmd hc hp row hscope hwf _
       (by simp [valid, cliOk, envOk, fileOk, hre, hf1, hfk, hft, hx])
-      (by simp [fileRawsStr, rawStrOk, hr])
+      (typedValuesKept_of_str sem row _ (by simp [fileRawsStr, rawStrOk, hr]))
       (by intro _ c hc'; simp [specBelowCli, specBelowEnv, specBelowProfile, fileValue, hre, hf1, hfk, hft, hbk, hr, hx, orErr] at hc'; subst hc'; exact hidem)]
     simp [spec, specBelowCli, specBelowEnv, specBelowProfile, fileValue, hre, hf1, hfk, hft, hbk, hr, hx, orErr]
 
@@ -261,8 +263,9 @@ theorem profile_cache_directory_loses_to_default_no_cache :
      pipelineFinal toySem cmd0 cacheDirectory s.toInputs = .ok .none) := by
   decide
 
-/-- **Not rejected.** `no-cache = true` and `cache-directory` in ONE section of the file (on the command line the two
-are a mutual-exclusion group): the run goes on, `no-cache` silently wins. -/
+/-- **Not rejected (remark, not counted as a defect).** `no-cache = true` and `cache-directory` in ONE section of the file
+(on the command line the two flags are a mutual-exclusion group; the README does not declare the file keys exclusive):
+the run goes on, `no-cache` wins. -/
 theorem no_cache_with_cache_directory_not_rejected :
     (let inp : Inputs TV := { cli := [], env := none, prof := [(0, .str "/c/prof"), (1, .tru)], dflt := [], builtin := .path "~/.cache" }
      pipelineFinal toySem cmd0 cacheDirectory inp = .ok .none) := by
